@@ -6,6 +6,7 @@ import time
 
 VERIF = os.path.dirname(os.path.dirname(os.path.dirname(os.path.abspath(__file__))))
 KNOWN = os.path.join(VERIF, "known_findings.json")
+OUT = os.environ.get("VERIF_OUT", os.path.join(VERIF, "evidence"))
 
 TRUSTED_BASE = [
     "rustc nightly 1.97 type checking and MIR construction (mir-opt-level=0, dev profile)",
@@ -80,7 +81,7 @@ class Report:
                 listed.append(v)
             else:
                 unlisted.append(v)
-        rdir = os.path.join(VERIF, "evidence", "replay")
+        rdir = os.path.join(OUT, "replay")
         os.makedirs(rdir, exist_ok=True)
         for v in listed:
             print("KNOWN-FINDING: property=%s %s (%s)" % (self.pid, known_keys[v["key"]].get("what", v["msg"]), v["key"]))
@@ -130,8 +131,8 @@ class Report:
             "wall_s": round(time.time() - self.t0, 3),
             "violations": len(unlisted),
         }
-        os.makedirs(os.path.join(VERIF, "evidence"), exist_ok=True)
-        with open(os.path.join(VERIF, "evidence", "%s.json" % self.pid), "w") as fh:
+        os.makedirs(OUT, exist_ok=True)
+        with open(os.path.join(OUT, "%s.json" % self.pid), "w") as fh:
             json.dump(ev, fh, indent=1)
         print("%s: %d rule instances, %d held, %d known findings, %d violations (%.1fs)" % (
             self.pid, len(self.instances), len(held), len(listed), len(unlisted), time.time() - self.t0))
